@@ -78,15 +78,12 @@ pub fn child_keygen(args: &[String]) {
     }
 }
 
-fn child_target(prefix: &[&str], target: &str, fresh: bool) -> String {
+fn child_target(prefix: &[&str], target: &str, fresh: bool) -> Result<String, String> {
     let mut ops: Vec<&str> = prefix.to_vec();
     ops.push(target);
     let spec = ops.join(",");
     let r = if fresh { child(&["keygen", &spec, "fresh"]) } else { child(&["keygen", &spec]) };
-    match r {
-        Ok(out) => out.lines().last().unwrap_or("").trim().to_string(),
-        Err(e) => machinery_error(&format!("C15: child process failed: {}", e)),
-    }
+    r.map(|out| out.lines().last().unwrap_or("").trim().to_string())
 }
 
 fn max_fg<V: Variant>(seed: u64) -> i16 {
@@ -100,7 +97,8 @@ fn target_name<V: Variant>(seed: [u8; 32]) -> String {
 
 fn histories_for<V: Variant>(ctx: &mut Ctx, tier: Tier, seed: [u8; 32], label: &str) {
     let target = target_name::<V>(seed);
-    let base = child_target(&[], &target, false);
+    // the baseline runs nothing but the target: if that process fails, nothing can be compared (machinery)
+    let base = child_target(&[], &target, false).unwrap_or_else(|e| machinery_error(&format!("C15: baseline child process failed: {}", e)));
     if base.len() < 100 {
         machinery_error("C15: baseline child produced no key");
     }
@@ -117,7 +115,7 @@ fn histories_for<V: Variant>(ctx: &mut Ctx, tier: Tier, seed: [u8; 32], label: &
     for p in prefixes.iter().take(1 + alphabet.len()) {
         jobs.push((p.clone(), true));
     }
-    let results: Vec<(String, String)> = jobs
+    let results: Vec<(String, Result<String, String>)> = jobs
         .par_iter()
         .map(|(p, fresh)| (format!("[{}]{}", p.join(","), if *fresh { " on a spawned thread" } else { "" }), child_target(p, &target, *fresh)))
         .collect();
@@ -129,6 +127,20 @@ fn histories_for<V: Variant>(ctx: &mut Ctx, tier: Tier, seed: [u8; 32], label: &
         part.states += 1;
         part.transitions += 1;
         part.validated += 1;
+        // the baseline process succeeded, so a history process that dies (a panic of the library after the prefix) or
+        // prints no key is a dependence of keygen on what ran before, not a failure of the machinery
+        let got = match got {
+            Ok(g) if g.len() >= 100 => g,
+            other => {
+                let why = match other { Ok(g) => format!("printed no key ({:?})", g), Err(e) => e.chars().take(300).collect() };
+                ctx.violation(
+                    format!("keygen-fails-after-history:n={}:{}", V::N, name),
+                    format!("{}::keygen(seed {}) after history {} in a fresh process does not return a key although the same call alone in a fresh process does: {}", V::name(), label, name, why),
+                    json!({"kind":"process-history","variant":V::N,"seed":hex(&seed),"history":name}),
+                );
+                continue;
+            }
+        };
         if got != base {
             ctx.violation(
                 format!("keygen-depends-on-history:n={}:{}", V::N, name),
@@ -207,7 +219,8 @@ fn repeat_for<V: Variant>(ctx: &mut Ctx, seed: u64, why: &str) {
     let a = crate::ctx::catch(|| kg::<V>(sb));
     let b = crate::ctx::catch(|| kg::<V>(sb));
     let c = on_fresh_thread(move || kg::<V>(sb));
-    let d = child_target(&[], &target, false);
+    // a child process that fails shows up as a key that differs (its error text), i.e. as a violation
+    let d = child_target(&[], &target, false).unwrap_or_else(|e| format!("child process failed: {}", e));
     part.states = 4;
     part.transitions = 4;
     part.validated = 3;
@@ -379,8 +392,8 @@ pub fn replay(case: &Value) -> Result<Option<String>, String> {
             let prefix: Vec<&str> = if ops.is_empty() { vec![] } else { ops.split(',').collect() };
             let fresh = rest.contains("spawned");
             let target = format!("T{}:{}", variant, hex(&seed));
-            let base = child_target(&[], &target, false);
-            let got = child_target(&prefix, &target, fresh);
+            let base = child_target(&[], &target, false)?;
+            let got = child_target(&prefix, &target, fresh).unwrap_or_else(|e| format!("child process failed: {}", e));
             Ok(if got != base { Some(format!("keygen after history {} differs from keygen in a fresh process", h)) } else { None })
         }
         _ => Err("re-run ./vf check C15".into()),
